@@ -56,6 +56,9 @@ impl Builder {
             T::Page => {
                 d.set("Type", Object::Name(b"Page".to_vec()));
                 if let Some(p) = parent { d.set("Parent", Object::Reference(p)); }
+                // the entries a real page carries (so that a page-like dictionary WITHOUT /Type can arise by mutation)
+                if r.chance(1, 2) { d.set("MediaBox", Object::Array(vec![0.into(), 0.into(), 612.into(), 792.into()])); }
+                if r.chance(1, 3) { d.set("Contents", Object::Array(vec![])); }
                 self.leaves.push(id);
             }
             T::Pages(kids) => {
@@ -64,10 +67,12 @@ impl Builder {
                 let kid_ids: Vec<Object> = kids.iter().map(|k| Object::Reference(self.build(r, k, Some(id)))).collect();
                 d.set("Count", Object::Integer(count_leaves(t) as i64));
                 if r.chance(1, 4) {
-                    // Kids behind a reference to an array object
+                    // Kids behind a reference to an array object, directly or through a chain of references
                     let aid = self.fresh();
                     self.doc.objects.insert(aid, Object::Array(kid_ids));
-                    d.set("Kids", Object::Reference(aid));
+                    let mut head = aid;
+                    for _ in 0..r.usize(3) { let rid = self.fresh(); self.doc.objects.insert(rid, Object::Reference(head)); head = rid; }
+                    d.set("Kids", Object::Reference(head));
                     self.kids_by_ref += 1;
                 } else {
                     d.set("Kids", Object::Array(kid_ids));
@@ -91,7 +96,7 @@ fn make_ids(r: &mut Rng, n: usize) -> Vec<ObjectId> {
 }
 
 fn build_doc(r: &mut Rng, t: &T) -> (Document, Vec<ObjectId>, u64) {
-    let n = count_nodes(t) * 2 + 4;
+    let n = count_nodes(t) * 4 + 4;
     let ids = make_ids(r, n);
     let mut b = Builder { doc: Document::with_version("1.5"), ids, next: 0, leaves: vec![], kids_by_ref: 0 };
     let cat = b.fresh();
